@@ -24,6 +24,7 @@ def run(ck, tier):
     c09.run_stored(r9, F)
     c09.run_anchors(r9, F)
     c09.run_inputs(r9, F)
+    c09.run_conditional(r9, F)
     api.must_be_unsafe(ck, F, "C01.unchecked-api-is-unsafe", ["arrow_buffer", "arrow_data", "arrow_array", "arrow_schema", "arrow_row", "arrow_ipc", "arrow_select", "arrow_cast"],
                        c09.UNSAFE_NAME, c09.UNSAFE_EXEMPT, floor=60)
     api.fields_private(ck, F, "C01.representation-private", c09.PRIVATE_ADTS)
